@@ -131,7 +131,18 @@ func runC13(c *Ctx) {
 		c.Check(okVia, "exact-set/returned-from-loader", "every success exit of GetCertificates returns what the directory loader just read for this type and name (nothing cached or shared between stores)", w.FnPos(G), detail)
 	}
 	// store type
-	c.slot(has("T(call:slices.Contains(global:ngo/verifier/truststore.Types,"+gTypeP+"))"), 1, "gate/known-type", "the store type is an element of truststore.Types", site, "an unknown store type is loaded")
+	knownType := has("T(call:slices.Contains(global:ngo/verifier/truststore.Types," + gTypeP + "))")
+	if !knownType {
+		// the membership test written out as a loop in a predicate of the package (`for _, t := range Types { if x == t
+		// { return true } }; return false`): its `true` answer was passed, and it answers true only behind an equality
+		// of its parameter with an element of truststore.Types
+		for _, g := range w.FuncsOfPkg("verifier/truststore") {
+			if g.Blocks != nil && len(g.Params) == 1 && c13IsTypesMembership(w, g) && has("T(call:"+fnName(g)+"("+gTypeP+"))") {
+				knownType = true
+			}
+		}
+	}
+	c.slot(knownType, 1, "gate/known-type", "the store type is an element of truststore.Types", site, "an unknown store type is loaded")
 	// store name: a certified validator, called on the name anywhere under GetCertificates, whose `true` answer every success exit passed
 	okName, why := false, "the store name is not validated"
 	for _, in := range all {
@@ -464,4 +475,53 @@ func c13Root(c *Ctx, fn *ssa.Function) {
 		{Name: "self-signed", What: "cert.CheckSignatureFrom(cert) err == nil", Subs: []string{"EQ(call:(*crypto/x509.Certificate).CheckSignatureFrom(" + p + "," + p + ")#err,nil)"}},
 		{Name: "subject-is-issuer", What: "RawSubject equals RawIssuer", Alt: [][]string{{"T(call:bytes.Equal(" + p + ".RawSubject," + p + ".RawIssuer))"}, {"T(call:bytes.Equal(" + p + ".RawIssuer," + p + ".RawSubject))"}}},
 	})
+}
+
+// c13IsTypesMembership: g (one parameter, one boolean result) returns true only behind an equality of its parameter with an
+// element of the package's Types table, and otherwise false.
+func c13IsTypesMembership(w *World, g *ssa.Function) bool {
+	if g.Signature.Results().Len() != 1 || !isBoolType(g.Signature.Results().At(0).Type()) {
+		return false
+	}
+	fi := w.Info(g)
+	pd := desc(g.Params[0])
+	guarded := func(m map[string]string) bool {
+		for l := range m {
+			if strings.HasPrefix(l, "EQ(") && strings.Contains(l, pd) && strings.Contains(l, "global:ngo/verifier/truststore.Types[") {
+				return true
+			}
+		}
+		return false
+	}
+	sawTrue := false
+	var judge func(v ssa.Value, facts map[string]string, depth int) bool
+	judge = func(v ssa.Value, facts map[string]string, depth int) bool {
+		if depth > 3 {
+			return false
+		}
+		if b, ok := boolConst(v); ok {
+			if !b {
+				return true
+			}
+			sawTrue = true
+			return guarded(facts)
+		}
+		if phi, ok := v.(*ssa.Phi); ok {
+			for i, e := range phi.Edges {
+				if !judge(e, c07Union(facts, c07PhiEdgeGuards(fi, phi, i)), depth+1) {
+					return false
+				}
+			}
+			return true
+		}
+		return false
+	}
+	for _, b := range g.Blocks {
+		if r, ok := blockTerm(b).(*ssa.Return); ok {
+			if len(r.Results) != 1 || !judge(r.Results[0], fi.GuardsOf(r), 0) {
+				return false
+			}
+		}
+	}
+	return sawTrue
 }
